@@ -41,7 +41,7 @@ NumCmp(a, b) == LET x == a.n * b.d  y == b.n * a.d IN IF x < y THEN -1 ELSE IF x
 \* ---- strings: atoms are ordered by AtomRank (code point order of the concretisation)
 AtomOrder == << " ", "!", "-", "0", "1", "2", "3", "4", "5", "6", "7", "8", "9",
                "A", "B", "C", "D", "E", "F", "G", "H", "I", "J", "K", "L", "M", "N", "O", "P", "Q", "R", "S", "T", "U", "V", "W", "X", "Y", "Z", "a", "b", "c", "d", "e", "f", "g", "h", "i", "j", "k", "l", "m",
-               "n", "o", "p", "q", "r", "s", "t", "u", "v", "w", "x", "y", "z" >>
+               "n", "o", "p", "q", "r", "s", "t", "u", "v", "w", "x", "y", "z", "U+E9" >>
 AtomRank(c) == LET I == {i \in DOMAIN AtomOrder : AtomOrder[i] = c} IN IF I = {} THEN 99 ELSE CHOOSE i \in I : TRUE
 RECURSIVE StrCmp(_,_)
 StrCmp(s, t) ==
